@@ -165,7 +165,11 @@ Example C05_nonvacuous_stage1 :
     [(2%nat, 32, Bound (BImp 1 ([30; 31], [32]))); (2%nat, 35, Unbound); (3%nat, 35, Unbound);
      (4%nat, 33, Bound BOther); (4%nat, 36, Unbound)].
 Proof. vm_compute. repeat split. Qed.
-(* n += 1 with n unbound; for m in [m]; def f(a, b: a) -> a *)
+(* n += 1 with n unbound; for m in [m]; def f(a, b: a) -> a; @(lambda: x) def f(x) *)
+Example C05_repaired_decorator :
+  find_missing [] [[]] [SDef 2 42 [(1%nat, ELambda [] [] (ELoad 43 []))] (Params [] [(43, None)] None [] None [] []) None [SPass 3]]
+  = [[43]].
+Proof. vm_compute. reflexivity. Qed.
 Example C05_repaired_classes :
   find_missing [] [[]] [SAugAssign 1 40 [] (EOp [])] = [[40]] /\
   find_missing [] [[]] [SFor 1 (TName 41) (EOp [ELoad 41 []]) [SPass 2] []] = [[41]] /\
